@@ -6,6 +6,7 @@ import EaselModel.Sqio.Refine
 import EaselModel.Sqio.Spec
 import EaselModel.Sqio.Sim
 import EaselModel.Sqio.Fold
+import EaselModel.Sqio.ReadInfo
 /-! # C04 — all ways of reading a sequence file agree with each other and with the file
 
 Property theorems only (proofs are glue on `Sqio/Windows.lean`, `Sqio/Refine.lean`, `Sqio/Spec.lean`).
@@ -121,6 +122,55 @@ theorem buffer_cut_invisible_partial (inmap : Bytes) (maxn : Nat) (l1 l2 : List 
       (if (Fold.scanBytes inmap maxn l1 s k).2.2 = .ok ∧ (Fold.scanBytes inmap maxn l1 s k).2.1 = k + l1.length then
          Fold.scanBytes inmap maxn l2 (Fold.scanBytes inmap maxn l1 s k).1 (k + l1.length)
        else Fold.scanBytes inmap maxn l1 s k) := Fold.scanBytes_append inmap maxn l1 l2 s k
+
+/-- **The residue-counting loop of `sqascii_ReadInfo` is a fold over the file bytes from the cursor on** — for every block size:
+    status (`eslEOD` at the next record / `eslEOF` at the end of the file / `eslEFORMAT` at an illegal byte), `sq->eoff`, and — unless
+    an illegal byte was met — the residue count added to `L`, the line number and the line-geometry tracker are those of
+    `DataScan.dataFold`, which does not mention `B`; at `eslEOD` the stop position is the fold's, inside the buffer. -/
+theorem readinfo_loop_is_file_fold (fuel : Nat) (a : Ascii) (sq : Sq) (M : Nat) (h : Refine.WF a) (hok : Fold.Track.Ok a.trk)
+    (hm : a.inmap.size = 128) (hM : (DataScan.fileFrom a).length ≤ M)
+    (hfuel : (DataScan.fileFrom a).length + (if a.bpos < a.nc then 0 else 1) < fuel) :
+    (scanLoop false fuel a sq).2.2.1 = DataScan.finalSt (DataScan.dataFold a M).2.2 ∧
+    (scanLoop false fuel a sq).2.1 = { sq with eoff := Refine.pos a + ((DataScan.dataFold a M).2.1 : Int) - 1 } ∧
+    ((DataScan.dataFold a M).2.2 ≠ .eformat →
+       Refine.WF (scanLoop false fuel a sq).1 ∧
+       Sim.payload (scanLoop false fuel a sq).1 =
+         Sim.payload { a with L := a.L + ((DataScan.dataFold a M).1.nres : Int), linenumber := (DataScan.dataFold a M).1.ln,
+                              trk := (DataScan.dataFold a M).1.trk } ∧
+       ((DataScan.dataFold a M).2.2 = .eod →
+          (scanLoop false fuel a sq).1.boff + ((scanLoop false fuel a sq).2.2.2 : Int) = Refine.pos a + ((DataScan.dataFold a M).2.1 : Int) ∧
+          (scanLoop false fuel a sq).2.2.2 < (scanLoop false fuel a sq).1.nc) ∧
+       ((DataScan.dataFold a M).2.2 = .ok →
+          Sim.AtEof (scanLoop false fuel a sq).1 ∧ Refine.pos (scanLoop false fuel a sq).1 = (a.file.size : Int))) :=
+  DataScan.scanLoop_info fuel a sq M h hok hm hM hfuel
+
+/-- **`sqascii_ReadInfo` on a FASTA file is block-size independent — the whole call** (every file, every pair of block sizes
+    `B₁, B₂ ≥ 1`): from similar handles it returns the same status and the same `ESL_SQ` (name, description, offsets, `L`), and when
+    it succeeds the handles are similar again (same absolute position, line number, tracker), so the next call starts from similar
+    handles. Composition of `header_fasta_block_size_independent`, `readinfo_loop_is_file_fold`, `end_fasta` and the final bookkeeping. -/
+theorem readInfo_block_size_independent (a1 a2 : Ascii) (sq : Sq) (h : Sim.Sim a1 a2) (hf : a1.fmt = 1) (hm : a1.inmap.size = 128) :
+    (readInfo a1 sq).2 = (readInfo a2 sq).2 ∧
+    ((readInfo a1 sq).2.2 = .ok → Sim.Sim (readInfo a1 sq).1 (readInfo a2 sq).1) :=
+  DataScan.readInfo_sim a1 a2 sq h hf hm
+
+/-- the same from open: two handles on one FASTA file, nothing buffered, any two block sizes ⇒ the first `ReadInfo` agrees -/
+theorem readInfo_after_open_block_size_independent (a1 a2 : Ascii) (sq : Sq) (h1 : Refine.Pre a1) (h2 : Refine.Pre a2)
+    (hp : Sim.payload a1 = Sim.payload a2) (hf : a1.fpos = a2.fpos) (hfmt : a1.fmt = 1) (hm : a1.inmap.size = 128) :
+    (readInfo (loadbuf a1).1 sq).2 = (readInfo (loadbuf a2).1 sq).2 := by
+  have hr := Sim.loadbuf_rest a1 h1
+  have e1 : (loadbuf a1).1.fmt = a1.fmt := congrArg (fun p => p.2.2.2.2.2.2.1) hr
+  have e2 : (loadbuf a1).1.inmap = a1.inmap := congrArg (fun p => p.2.2.2.2.1) hr
+  exact (DataScan.readInfo_sim _ _ sq (Sim.loadbuf_sim a1 a2 h1 h2 hp hf).2 (e1.trans hfmt) (by rw [e2]; exact hm)).1
+
+/-- non-vacuity of the hypotheses of `readInfo_block_size_independent`: `>a\nAC\n` as a text-mode FASTA file opened with B = 2 and B = 5 -/
+example : Sim.Sim (loadbuf { file := #[62, 97, 10, 65, 67, 10], B := 2, inmap := inmapFasta 0, fmt := 1 }).1
+                  (loadbuf { file := #[62, 97, 10, 65, 67, 10], B := 5, inmap := inmapFasta 0, fmt := 1 }).1 ∧
+    (loadbuf { file := #[62, 97, 10, 65, 67, 10], B := 2, inmap := inmapFasta 0, fmt := 1 }).1.fmt = 1 ∧
+    (loadbuf { file := #[62, 97, 10, 65, 67, 10], B := 2, inmap := inmapFasta 0, fmt := 1 }).1.inmap.size = 128 :=
+  ⟨(Sim.loadbuf_sim { file := #[62, 97, 10, 65, 67, 10], B := 2, inmap := inmapFasta 0, fmt := 1 }
+      { file := #[62, 97, 10, 65, 67, 10], B := 5, inmap := inmapFasta 0, fmt := 1 }
+      ⟨rfl, by decide, by decide, by decide, by decide⟩ ⟨rfl, by decide, by decide, by decide, by decide⟩ rfl rfl).2,
+   by decide +kernel, by decide +kernel⟩
 
 /-- non-vacuity of the simulation: the same 6-byte file opened with B = 2 and with B = 5 -/
 example : Sim.Sim (loadbuf { file := #[62, 97, 10, 65, 67, 10], B := 2 }).1 (loadbuf { file := #[62, 97, 10, 65, 67, 10], B := 5 }).1 :=
